@@ -19,7 +19,7 @@ POSITION_ADAPTORS = {'std::iter::Rev', 'std::iter::Copied', 'std::iter::Cloned',
                      'std::iter::Zip'}
 BASES = ('std::slice::Iter', 'std::slice::IterMut', 'std::vec::IntoIter', 'std::ops::Range', 'std::ops::RangeInclusive',
          'std::str::Chars')
-CONSUMERS = ('any', 'all', 'find', 'position', 'count', 'fold', 'for_each', 'try_fold')
+CONSUMERS = ('any', 'all', 'find', 'position', 'count', 'fold', 'for_each', 'try_fold', 'try_for_each')
 # consumers the interpreter still summarises as quantifier / fold terms on plain slice iterators (rules written against
 # those terms); everything else is lowered
 SUMMARISED = set()
@@ -242,12 +242,12 @@ def lower_call(fn, crate, bi, cons):
         return False
     if cons in SUMMARISED and not chain and (SIMPLE.match(inner_ty) or (cons != 'fold' and not inner_ty.startswith('std::'))):
         return False
-    want_args = {'any': 2, 'all': 2, 'find': 2, 'position': 2, 'count': 1, 'fold': 3, 'for_each': 2, 'try_fold': 3}[cons]
+    want_args = {'any': 2, 'all': 2, 'find': 2, 'position': 2, 'count': 1, 'fold': 3, 'for_each': 2, 'try_fold': 3, 'try_for_each': 2}[cons]
     if len(args) != want_args:
         return False
     dty = dest['ty']
     try_kind = None
-    if cons == 'try_fold':
+    if cons in ('try_fold', 'try_for_each'):
         h = split_generics(dty)[0]
         if h == 'std::option::Option':
             try_kind = ('std::option::Option', 'Some', 'None')
@@ -357,6 +357,23 @@ def lower_call(fn, crate, bi, cons):
         fn.blocks[A]['stmts'] = [B.assign(P(ACC, tys[1]), ['use', ['move', P(TMP, tys[1])]])]
         fn.blocks[A]['term'] = ['goto', H]
         done['stmts'] = [B.assign(dest, ['use', ['move', P(ACC, tys[1])]])]
+    elif cons == 'try_for_each':
+        adt, okv, badv = try_kind
+        TMP = B.local(dty, None)
+        D2 = B.local('isize', None)
+        A, BAD, UN2 = B.block(), B.block(), B.block()
+        fn.blocks[UN2]['term'] = ['unreachable']
+        fn.blocks[cur]['term'] = B.closure_call(fop(), [['move', P(X, item_ty)]], P(TMP, dty), A)
+        fn.blocks[A]['stmts'] = [B.assign(P(D2, 'isize'), ['discr', P(TMP, dty)])]
+        fn.blocks[A]['try_exit'] = True      # leaves the loop only to hand on the closure's failure (like `?`)
+        okidx = 1 if okv == 'Some' else 0
+        fn.blocks[A]['term'] = ['switch', ['move', P(D2, 'isize')], [[okidx, H], [1 - okidx, BAD]], UN2, 'isize', line, exp]
+        if badv == 'None':
+            fn.blocks[BAD]['stmts'] = [B.assign(dest, agg_opt('None', []))]
+        else:
+            fn.blocks[BAD]['stmts'] = [B.assign(dest, agg_opt('Err', [['move', P(TMP, '?', [['downcast', 'Err', 1], ['field', 0, '0', adt, '?']])]], adt))]
+        fn.blocks[BAD]['term'] = ['goto', target]
+        done['stmts'] = [B.assign(dest, agg_opt(okv, [UNIT], adt))]
     elif cons == 'try_fold':
         adt, okv, badv = try_kind
         TMP = B.local(dty, None)
@@ -365,6 +382,7 @@ def lower_call(fn, crate, bi, cons):
         fn.blocks[UN2]['term'] = ['unreachable']
         fn.blocks[cur]['term'] = B.closure_call(fop(), [['move', P(ACC, tys[1])], ['move', P(X, item_ty)]], P(TMP, dty), A)
         fn.blocks[A]['stmts'] = [B.assign(P(D2, 'isize'), ['discr', P(TMP, dty)])]
+        fn.blocks[A]['try_exit'] = True      # leaves the loop only to hand on the closure's failure (like `?`)
         okidx = 1 if okv == 'Some' else 0
         fn.blocks[A]['term'] = ['switch', ['move', P(D2, 'isize')], [[okidx, GOOD], [1 - okidx, BAD]], UN2, 'isize', line, exp]
         fn.blocks[GOOD]['stmts'] = [B.assign(P(ACC, tys[1]), ['use', ['move', P(TMP, tys[1], [['downcast', okv, okidx], ['field', 0, '0', adt, tys[1]]])]])]
